@@ -34,6 +34,21 @@ func runC14(c *core.Ctx) {
 		layout := layouts[r.Intn(len(layouts))]
 		w := newWorld(r, worldOpts{Exact: i%2 == 0, Hostile: true, Notes: true, Layout: layout, MinDays: 1,
 			Names: gen.NameOpts{Unicode: true, Spaces: true, Slash: true, Punct: ".,;:'()&%+*=!?@_-\"#", MaxLen: 12, Edge: gen.EdgePunct}})
+		if i%60 == 7 && len(w.Log) > 0 && len(w.Unknown)+len(w.Basics) > 0 {
+			// a heading with a thousand and more food lines (a month or a year kept under one heading, an imported
+			// log) and notes: the notes, the merged foods and their order are printed like those of any other day
+			pool := append(append([]string{}, w.Basics...), w.Unknown...)
+			nlines := []int{1000, 1100, 2500}[r.Intn(3)]
+			d := &w.Log[r.Intn(len(w.Log))]
+			for k := 0; k < nlines; k++ {
+				d.Ents = append(d.Ents, gen.Ent{Name: pool[r.Intn(len(pool))], Val: gen.EQty(r)})
+			}
+			if len(d.Notes) == 0 {
+				d.Notes = []gen.Note{{Key: "source", Text: "imported"}, {Text: "a long day"}}
+			}
+			w.LogText = gen.RenderLog(w.Log, w.Layout, gen.Hostile(r))
+			c.Count("logs_with_a_day_of_1000_and_more_lines", 1)
+		}
 		files := map[string]string{"log.yaml": w.LogText}
 		var opts []string
 		env := map[string]string{}
@@ -223,6 +238,29 @@ func runC14(c *core.Ctx) {
 		}
 	})
 	// the default configuration location is covered by C16; here the explicit ones
+	// entry lines just below the longest line the tool reads: what print writes for them (a dash and two decimals
+	// more) must still be a line the tool reads
+	if !c.InChild() && c.HR != "" {
+		dir := filepath.Join(c.Work, "near-limit")
+		for _, k := range []int{4090, 4096, 65000, 65529, 65531, 65533, 65535} {
+			name := strings.Repeat("n", k-5)
+			files := map[string]string{"log.yaml": "2021/01/24:\n  " + name + ": 1\n  water: 2\n"}
+			run.WriteFiles(dir, files)
+			p1 := run.Exec(c.HR, []string{"--no-color", "-l", "log.yaml", "print"}, run.ExecOpts{Dir: dir})
+			c.Eval(1)
+			c.Count("print_lines_near_the_line_limit", 1)
+			if p1.Exit != 0 {
+				continue // the tool does not read the log: nothing is claimed
+			}
+			run.WriteFiles(dir, map[string]string{"printed.yaml": p1.Out})
+			p2 := run.Exec(c.HR, []string{"--no-color", "-l", "printed.yaml", "print"}, run.ExecOpts{Dir: dir})
+			c.Eval(1)
+			if p2.Exit != 0 || p2.Out != p1.Out {
+				c.Violation("print|output-not-readable-near-the-line-limit", fmt.Sprintf("an entry line of %d bytes is read and printed (exit 0), but the printed log is not read back: exit %d %s", k, p2.Exit, clip(p2.Serr, 120)),
+					caseDoc{Files: map[string]string{"log.yaml": fmt.Sprintf("2021/01/24:\n  <%d times n>: 1\n  water: 2\n", k-5)}, Args: []string{"--no-color", "-l", "log.yaml", "print"}, Note: fmt.Sprintf("entry line of %d bytes; then print of the printed file", k), Observed: map[string]any{"print_exit": p1.Exit, "printed_bytes": len(p1.Out), "read_back_exit": p2.Exit, "read_back_stderr": clip(p2.Serr, 200)}})
+			}
+		}
+	}
 	// selection by instants that differ only in the fraction of a second (shared with C06)
 	c06SubSecond(c, [][]string{{"print"}})
 	jobs, deaths := pool.Stats()
